@@ -56,7 +56,7 @@ def _sharded(jobs, base, var="a", weight=1, spec=None):
     for name, extra in shard_extras(var, exclude=(spec or {}).get(var, {}).get("exclude", "")):
         p = dict(base)
         sp = {k: dict(v) for k, v in (spec or {}).items()}
-        sp[var] = dict(sp.get(var, {}), extra=extra)
+        sp[var] = dict(sp.get(var, {}), extra=(f"({sp[var]['extra']}) and ({extra})" if sp.get(var, {}).get("extra") else extra))
         p["spec"] = sp
         p["shard"] = name
         jobs.append({"harness": "maps", "params": p, "weight": weight, "cpu_cap": 900, "wall_cap": 1500})
